@@ -827,6 +827,11 @@ async fn run_inner(cfg: &Cfg, out: &mut Outcome) {
                 tb[..8].copy_from_slice(&(0xABCD_0000u64 + n as u64).to_le_bytes());
                 tb[8..].copy_from_slice(&cfg.seed.to_le_bytes());
                 ctx.trace_context.trace_id = trace::TraceId::from(u128::from_le_bytes(tb));
+                if n % 5 == 4 {
+                    // boundary trace ids (at most one call per scenario uses each)
+                    ctx.trace_context.trace_id = trace::TraceId::from(if n == 4 { 0u128 } else if n == 9 { u128::MAX } else { n as u128 });
+                    out.cell("C18.boundary-trace-id");
+                }
                 ctx.trace_context.span_id = trace::SpanId::from(0x5000 + n as u64);
                 ctx.trace_context.sampling_decision = if n % 2 == 0 {
                     trace::SamplingDecision::Sampled
